@@ -484,6 +484,9 @@ func TestC11_Sweep(t *testing.T) {
 						try(base[:i]+ch+base[i:], fmt.Sprintf("ins%d/%q", i, ch))
 					}
 				}
+				for i, v := range multiByteDigitVariants(base) {
+					try(v, fmt.Sprintf("samebytelen-nonascii-digits/%d", i))
+				}
 			}
 			for _, s := range []string{"", " ", "x", "https://psa-verifier.org"} {
 				run(c11SweepIn{p, filled, setterOp{Claim: CVSI, Text: s}}, fmt.Sprintf("%svsi/%q", pre, s))
